@@ -39,6 +39,11 @@ def Item.noLoad : Item → Prop
   | .evalCall _ _ => False
   | _ => True
 
+/-- the line where the call of an item ends -/
+def Item.line : Item → Nat
+  | .call _ l | .ref _ l | .load _ l | .evalCall _ l => l
+  | .callArgs _ _ _ _ _ l | .keep _ _ _ _ _ _ l => l
+
 structure Universe where
   fns : Fn → Prop
   vals : PyVal → Prop
@@ -47,6 +52,15 @@ structure Universe where
   varsIn : ∀ f, fns f → ∀ nv ∈ f.vars, vals nv.2
   varNames : ∀ f, fns f → (f.vars.map Prod.fst).Nodup
   noLoads : ∀ f, fns f → ∀ it ∈ f.items, it.noLoad
+  /-- parameter names are distinct, and none is called `context` (the key `arg_context` is reserved) -/
+  paramNames : ∀ f, fns f → (f.params.map Param.name).Nodup
+  noCtxParam : ∀ f, fns f → ∀ p ∈ f.params, p.name ≠ "context"
+  /-- items are listed in source order, one call per line, inside the text -/
+  sorted : ∀ f, fns f → f.items.Pairwise (fun a b => a.line < b.line)
+  lineBound : ∀ f, fns f → ∀ it ∈ f.items, it.line < f.lines.length
+  /-- the text up to a line determines the parameters and the calls up to that line -/
+  prefixFaithful : ∀ f g n, fns f → fns g → f.lines.take (n + 1) = g.lines.take (n + 1) →
+    f.params = g.params ∧ f.items.filter (fun it => it.line ≤ n) = g.items.filter (fun it => it.line ≤ n)
 
 def Universe.world (U : Universe) (W : World) : Prop := ∀ f ∈ W.funs, U.fns f
 
